@@ -55,7 +55,7 @@ def register(R):
         }
 
     R.contract(
-        f'{TC}.set_exception', props=['C17', 'C03'], self_type=SHARED, old_at='acquire',
+        f'{TC}.set_exception', props=['C17', 'C03', 'C05'], self_type=SHARED, old_at='acquire',
         params=dict(exception=ExtT('exception'), override=Bool),
         ensures=set_exception_post,
         twins=lambda c: {'always_overrides': S(c.newf('_status')) == z3.StringVal('failed')},
@@ -81,7 +81,7 @@ def register(R):
         }
 
     R.contract(
-        f'{TC}.cancel', props=['C17', 'C07', 'C04'], self_type=SHARED, old_at='acquire',
+        f'{TC}.cancel', props=['C17', 'C07', 'C04', 'C05'], self_type=SHARED, old_at='acquire',   # C05: a finished (completed) upload is never re-labelled cancelled without its abort
         params=dict(msg=ExtT('str'), exc_type=ExtT('excclass')),
         ensures=cancel_post,
         twins=lambda c: {'always_cancels': S(c.newf('_status')) == z3.StringVal('cancelled')},
